@@ -20,6 +20,7 @@ PROFILE = {
     "p_retryable": 0.85,
     "max_dur": 16,
     "max_delay_ticks": 32,
+    "multi_call": (1, 2),
 }
 
 
@@ -33,7 +34,7 @@ def case_st(draw):
     case["placement"] = pl
     if gen.chance(draw, 0.3, "c14-op"):
         case["cfg"]["operation"] = draw(st.sampled_from(["fetch", "op2", "x"]))
-    case["entry"] = draw(st.sampled_from(C.RETRY_ENTRIES))
+    case["entry"] = draw(st.sampled_from(C.WIDE_ENTRIES))
     return case
 
 
